@@ -8,8 +8,8 @@ package vrt
 
 import (
 	"fmt"
-	"os"
 	"hash/fnv"
+	"os"
 	"runtime"
 	"runtime/debug"
 	"sort"
@@ -83,16 +83,18 @@ type Exec struct {
 	chans  map[uintptr]*chanState
 	keep   []any
 
-	prefix    []int
-	Decisions []Decision
-	steps     int
-	horizon   int
-	tracing   bool
-	Trace     []string
-	Obs       []string
-	obsHash   uint64
-	touchOn   map[string]bool
-	timeRace  bool
+	prefix     []int
+	Decisions  []Decision
+	steps      int
+	horizon    int
+	tracing    bool
+	Trace      []string
+	Obs        []string
+	obsHash    uint64
+	touchOn    map[string]bool
+	timeRace   bool
+	quiet      bool
+	freeSwitch bool
 
 	Fails      []Failure
 	Panic      *PanicInfo
@@ -407,9 +409,15 @@ func (e *Exec) loop() {
 			e.states[e.stateHash()] = struct{}{}
 		}
 		pick := 0
+		if e.quiet && lastEnabled {
+			en = en[:1]
+		}
 		if len(en) > 1 {
 			cost := make([]int8, len(en))
-			if lastEnabled {
+			// Default: every departure from the deterministic default schedule (keep running,
+			// else lowest thread id) costs one unit ("delay bounding"). With FreeSwitch only
+			// preemptions cost (CHESS-style preemption bounding): affordable for small harnesses.
+			if lastEnabled || !e.freeSwitch {
 				for i := 1; i < len(en); i++ {
 					cost[i] = 1
 				}
@@ -482,8 +490,11 @@ type Options struct {
 	Deadline time.Time
 	TouchOn  []string
 	Trace    bool
-	Prefix   []int // replay exactly this prefix (with Bound<0: single run)
-	Single   bool
+	// FreeSwitch makes switches away from a blocked or finished thread free (only
+	// preemptions count against Bound); the default counts every non-default choice.
+	FreeSwitch bool
+	Prefix     []int // replay exactly this prefix (with Bound<0: single run)
+	Single     bool
 	// Subtree sharding: prefixes shorter than SplitDepth are explored by every shard
 	// (counted by shard 0 only); each subtree rooted at the first prefix of length
 	// >= SplitDepth belongs to exactly one shard.
@@ -523,14 +534,15 @@ func RunOnce(opt Options, prefix []int, body func(), states map[uint64]struct{})
 		panic("vrt: nested execution")
 	}
 	e := &Exec{
-		parked:  make(chan struct{}),
-		chans:   map[uintptr]*chanState{},
-		prefix:  prefix,
-		horizon: opt.Horizon,
-		tracing: opt.Trace,
-		touchOn: map[string]bool{},
-		states:  states,
-		Data:    map[string]any{},
+		parked:     make(chan struct{}),
+		chans:      map[uintptr]*chanState{},
+		prefix:     prefix,
+		horizon:    opt.Horizon,
+		tracing:    opt.Trace,
+		touchOn:    map[string]bool{},
+		states:     states,
+		Data:       map[string]any{},
+		freeSwitch: opt.FreeSwitch,
 	}
 	if e.horizon == 0 {
 		e.horizon = 50000
@@ -807,4 +819,13 @@ func startWatchdog() {
 			}
 		}
 	}()
+}
+
+// Quiet switches preemption off (on=true) or back on: while quiet the running thread
+// keeps running as long as it is enabled and no scheduling alternative is recorded.
+// Harnesses use it for set-up phases whose interleavings are not under test.
+func Quiet(on bool) {
+	if cx != nil {
+		cx.quiet = on
+	}
 }
